@@ -55,7 +55,7 @@ def run_E(cc, argv, cwd, timeout=20, env=None):
 
 
 def gcc_E(argv, cwd):
-    p = subprocess.run(["cc", "-E", "-P", "-w"] + argv, cwd=cwd, capture_output=True, text=True, timeout=20)
+    p = subprocess.run(["cc", "-E", "-P", "-w"] + argv, cwd=cwd, capture_output=True, text=True, timeout=180)
     return p.returncode, toks_of(p.stdout)
 
 
@@ -302,7 +302,7 @@ def submit_incl(ctx, pool):
         for d in ("/usr/local/include", "/usr/include/x86_64-linux-gnu", "/usr/include"):
             if os.path.exists("%s/%s.h" % (d, n)):
                 raise Infra("%s/%s.h exists on this machine; scenario header names would collide" % (d, n))
-    strides = dict(R1=2, R2=12, G=1, P=1) if q else dict(R1=1, R2=1, G=1, P=1)
+    strides = dict(R1=3, R2=16, G=1, P=1) if q else dict(R1=1, R2=1, G=1, P=1)
     jobs = dict(gen=[], ctl=[])
     for fam, nopt in FAMS:
         out = os.path.join(ctx.scratch, "incl-%s.ndjson" % fam)
@@ -310,7 +310,7 @@ def submit_incl(ctx, pool):
         jobs["gen"].append((fam, out, cfg, pool.submit(ctx.tlc, "pp", "Include", cfg, env=dict(OUT=out), workers=2 if q else 4, timeout=1500)))
     # sensitivity controls: the pinned algorithms must be rejected by TLC
     for name, fam, nopt, kw in CONTROLS:
-        cfg = ctx.cfg("pp", "Include_mc.cfg", Fam='"%s"' % fam, NOpt=nopt, Stride=1 if fam == "G" else 3, **kw)
+        cfg = ctx.cfg("pp", "Include_mc.cfg", Fam='"%s"' % fam, NOpt=nopt, Stride=1 if fam == "G" else 6, **kw)
         jobs["ctl"].append((name, pool.submit(ctx.tlc, "pp", "Include", cfg, workers=1, count=False)))
     return jobs
 
